@@ -5,6 +5,7 @@ from fractions import Fraction
 
 from vmon import dists as D
 from vmon import gens as G
+from vmon.gens import THOROUGH_SCALE as TS
 from vmon import oracles as O
 
 PID = "C05"
@@ -380,7 +381,7 @@ def generate(tier, seed):
             for ys in small:
                 yield "hist", {"seqs": xs, "seqs2": ys, "bins": [0, 1, 2, 3], "normalize": False, "pseudocount": 0.0}, True
     pools = [G.universe("AC", 4), G.universe("ACD", 3), G.hostile_strings(), G.NON_AMINO + G.universe("ab", 2)]
-    n_rand = 6000 if thorough else 320
+    n_rand = 6000 * TS if thorough else 320
     for i in range(n_rand):
         pool = pools[i % len(pools)]
         seqs = G.small_multiset(rng, pool, 2, 60 if i % 10 == 0 else 14)
@@ -401,11 +402,11 @@ def generate(tier, seed):
                 q["seqs2"] = G.small_multiset(rng, pool, 1, 10)
             yield "bins0", q, i < 90
     # repertoires with the default metric and default bins
-    for i in range(120 if thorough else 10):
+    for i in range(120 * TS if thorough else 10):
         seqs = G.repertoire(rng, rng.randint(10, 80))
         yield "hist", {"seqs": seqs, "bins": None, "normalize": i % 2 == 0, "pseudocount": 0.5 if i % 4 == 0 else 0.0}, i < 3
     # long strings: default metric, distances beyond 255 (no wrap-around into low bins)
-    for i in range(40 if thorough else 6):
+    for i in range(40 * TS if thorough else 6):
         la = [300, 400, 256, 270, 513, 380][i % 6]
         longs = ["A" * la, "C" * (la - 7), G.rand_string(rng, "ACDEFGHIKL", la, la), "CASSF", G.rand_string(rng, "MNPQRSTVWY", 260, 260)]
         p = {"seqs": longs, "bins": [None, [0, 10, 100, 255, 256, 300, 600], [0, 256, 512, 1024]][i % 3], "normalize": i % 2 == 0, "pseudocount": 0.0}
@@ -414,7 +415,7 @@ def generate(tier, seed):
         yield "hist", p, True
     # tables
     cells = ["CAF", "CAAF", "CAW", "CF", "CASF", "CAAAF", ""]
-    n_tab = 1500 if thorough else 70
+    n_tab = 1500 * TS if thorough else 70
     for i in range(n_tab):
         n = rng.randint(2, 12)
         rows = [[rng.choice(cells), rng.choice(cells)] for _ in range(n)]
@@ -433,7 +434,7 @@ def generate(tier, seed):
         if i % 7 == 0:
             yield "bins0", {"seqs": rows, "as_table": True, "seqs2": p.get("rows2")}, i < 36
     # maxseqs
-    n_m = 1200 if thorough else 60
+    n_m = 1200 * TS if thorough else 60
     for i in range(n_m):
         pool = pools[i % 2]
         seqs = G.small_multiset(rng, pool, 2, 30)
